@@ -317,7 +317,8 @@ def main(run, tier):
     run.trust('children print relative to the level they start at and restore it (induction hypothesis = O-depth of their '
               'own productions)', 'Lexer (token boundaries of the output) in the bounded oracle only')
     run.assume('lines that continue a multi-line string/comment token are exempt (holes are atoms in the E2 runs)',
-               'walker.process_layouts is exercised for real in every run but has no SMT contract; '
+               'the unparse walk (walk._walk / walk.walk) is under contract (contracts/unparse_walk.py, definitions of <= 3 rules); its '
+               'marker normalisation walk.process_layouts is exercised for real in every run but has no SMT contract; '
                'Indentator.layout_handler_newline_optional: surrounding texts range over a finite set of shapes, text token in front '
                'assumed not to end in a line break (level and indentation strings symbolic)')
 
